@@ -442,7 +442,8 @@ func (idx *KVIndex) FieldTermNumberMin(field string) float64 {
 		if it.Valid() && bytes.HasPrefix(it.Key(), prefix) {
 			_, _, term := TermKeyParse(it.Key())
 			val := GetBytesTerm(term, TermNumber).(float64)
-			if val < 0 {
+			//the key of -0.0 sorts with the negative numbers, behind all positive ones
+			if math.Signbit(val) {
 				min = val
 				return nil
 			}
